@@ -84,6 +84,7 @@ type transferConfig struct {
 type trzszTransfer struct {
 	buffer           *trzszBuffer
 	writer           io.Writer
+	stopMutex        sync.Mutex
 	stopped          atomic.Bool
 	stopAndDelete    atomic.Bool
 	pausing          atomic.Bool
@@ -280,10 +281,16 @@ func (t *trzszTransfer) addReceivedData(buf []byte, tunnel bool) {
 }
 
 func (t *trzszTransfer) stopTransferringFiles(stopAndDelete bool) {
-	if !t.stopped.CompareAndSwap(false, true) {
+	// record the kind of stop before the stop itself becomes visible, so that
+	// checkStop never reports a plain stop for a stop-and-delete; the first stop wins
+	t.stopMutex.Lock()
+	if t.stopped.Load() {
+		t.stopMutex.Unlock()
 		return
 	}
 	t.stopAndDelete.Store(stopAndDelete)
+	t.stopped.Store(true)
+	t.stopMutex.Unlock()
 	t.buffer.stopBuffer()
 
 	if !t.tunnelConnected {
@@ -319,13 +326,14 @@ func (t *trzszTransfer) resumeTransferringFiles() {
 }
 
 func (t *trzszTransfer) checkStop() error {
+	// read the stop flag first: the kind of stop is always stored before it
+	if !t.stopped.Load() {
+		return nil
+	}
 	if t.stopAndDelete.Load() {
 		return errStoppedAndDeleted
 	}
-	if t.stopped.Load() {
-		return errStopped
-	}
-	return nil
+	return errStopped
 }
 
 func (t *trzszTransfer) setLastChunkTime(chunkTime time.Duration) {
